@@ -270,6 +270,14 @@ func (f *Flooder) HandleRouteAdvertise(
 		}
 	}
 
+	// An advertisement whose path already runs through us has come back
+	// around a cycle (for example a full-table replay of a route learned via
+	// us). Our own tables would refuse it; do not pass it on either, or the
+	// agents behind us would record a path that visits us twice.
+	if containsAgent(path, f.localID) {
+		return false
+	}
+
 	// Enforce the configured hop limit. The path lists every hop from the
 	// sending peer back to the origin, so its length is our distance.
 	if f.cfg.MaxHops > 0 && len(path) > f.cfg.MaxHops {
